@@ -76,6 +76,7 @@ class Features:
     explicit_ttree: bool = True
     echo: bool = True
     follow_links: int = 0  # follow object-valued methods up to this many steps (C10)
+    bare_columns: bool = True  # a vector-valued method as it is as a column / as the sequence of a First-of-sequences
     flat_aggregates: bool = True  # aggregates / First over a sequence flattened by an inner SelectMany
     math_names: Tuple[str, ...] = (
         "sin", "cos", "tanh", "atan", "exp2small", "sqrtabs", "log1pabs", "atan2", "hypot", "fabs", "abs", "cbrt", "erf", "fmax", "fmin",
@@ -241,9 +242,13 @@ class QGen:
     def unbare(self, scope, r):
         """A collection-valued method used directly as an output column is a recorded finding
         (AssertionError 'Do not know how to loop over'): give it a non-identity Select."""
+        if r is not None and self._bare and getattr(self.f, "bare_columns", True) and self.chance(2, 3):
+            # a vector-valued method as it is - no sequence operator applied - where a sequence is expected
+            self.labels.add("bare-collection-as-sequence")
+            self._bare = False
+            return r
         if r is not None and self._bare:
             v = self.newvar(scope, "w")
-            self.excluded["bare-collection-column"] = self.excluded.get("bare-collection-column", 0) + 1
             self._bare = False
             return (f"{r[0]}.Select(lambda {v}: {v} * 1)", r[1])
         return r
